@@ -553,6 +553,18 @@ impl<T> Steal<T> {
         }
         ret
     }
+
+    /// `steal_into` that also reports how many tasks were moved to `dst` (verification hook)
+    #[cfg(may_verif)]
+    pub fn steal_into_counted(&self, dst: &mut Local<T>) -> (Option<T>, usize) {
+        let mut v = self.0.bulk_pop();
+        let ret = v.pop();
+        let n = v.len();
+        for t in v {
+            dst.push_back(t);
+        }
+        (ret, n)
+    }
 }
 
 impl<T> Clone for Steal<T> {
